@@ -22,7 +22,8 @@ CHECKS = {
              "permutation of every legal clause subset compiles, and no "
              "#define directive in the headers escapes the TROMPELOEIL_ prefix under TROMPELOEIL_LONG_MACROS. "
              "The verdict is the compiler's own, so it holds for every program built from these clause "
-             "chains, not for sampled runs.",
+             "chains, not for sampled runs. "
+             "Every spelling of a call-count limit (n; a,b; AT_LEAST; AT_MOST; lower bound 0 with non-zero upper bound; RT_TIMES forms) at every position relative to the other clauses is in the positive matrix.",
         design_ref="DESIGN.md section 4, C19",
         note="clang++ 14 (quick: C++14/17/20 subsets) and additionally g++ 12 at C++14/17/20 (thorough); "
              "diagnostics are attributed to generated cases by source line."),
@@ -49,7 +50,8 @@ CHECKS["C12"] = dict(
          "links, call counters and limits, reported flag, monitor slot) happens with the single global lock held; "
          "destructor tails are accepted only below a locked detach of the same sub-object; there is exactly one "
          "synchronisation object; each listed operation is one critical section. Because the argument is per "
-         "thread and per path, it covers every schedule and any number of threads, which no stress run can.",
+         "thread and per path, it covers every schedule and any number of threads, which no stress run can. "
+         "What get_lock() locks has static storage duration and is not thread_local.",
     design_ref="DESIGN.md section 4, C12",
     note="Exemptions (named, with reasons, in rules/C12.py): sequence-object destruction, mock move, "
          "set_sequence's copy of the never-registered old handler, TIMES before IN_SEQUENCE. Not decided: "
@@ -76,7 +78,9 @@ CHECKS["C05"] = dict(
          "specification on every valuation of their atoms; both consumers of a sequence step (mock call, monitored "
          "destruction) validate only when not callable and before any mutation, count exactly once, retire their "
          "predecessors on every accepted path, and a path ending in a fatal report has changed no state; registration "
-         "appends under the lock; validate_match reports iff not first in line with the caller's severity.",
+         "appends under the lock; validate_match reports iff not first in line with the caller's severity. "
+         "The whole step protocol of the accept path is a premise of this property and is decided by this check too: forbidden test first and unconditional, sequence check before the count, exactly one count, saturation test after the count, the expectation has left its list and its sequences before any user code runs. "
+         "validate() asks every named sequence, unconditionally.",
     design_ref="DESIGN.md section 4, C05",
     note="The step tables lift to the loops' results, and these to all histories, by the induction written in DESIGN.md "
          "(not machine-checked).")
@@ -87,7 +91,8 @@ CHECKS["C04"] = dict(
          "evaluate it on every path and report exactly on its true edge; the report marks the expectation as reported "
          "and is sent exactly once, non-fatally, with location, name, expected values, required and actual counts; "
          "only the two lifetime ends may emit it; mock destruction visits every expectation (report, then unlink). "
-         "reported and unlinked are absorbing, hence at most one end-of-life report per expectation over every history.",
+         "reported and unlinked are absorbing, hence at most one end-of-life report per expectation over every history. "
+         "The whole step protocol of the accept path is a premise of this property and is decided by this check too: forbidden test first and unconditional, sequence check before the count, exactly one count, saturation test after the count, the expectation has left its list and its sequences before any user code runs.",
     design_ref="DESIGN.md section 4, C04", note="Not decided: message wording.")
 CHECKS["C08"] = dict(
     technique="typestate automata over the dispatch function and over every function that evaluates WITH clauses "
@@ -97,7 +102,8 @@ CHECKS["C08"] = dict(
          "before the first side effect; side effects and conditions are appended in declaration order and iterated "
          "over the whole list, and once the call has been counted no path leaves run_actions without passing the "
          "side-effect loop; in every function that evaluates WITH clauses no clause is evaluated after one has "
-         "failed; reference returns keep object identity by type.",
+         "failed; reference returns keep object identity by type. "
+         "The whole step protocol of the accept path is a premise of this property and is decided by this check too: forbidden test first and unconditional, sequence check before the count, exactly one count, saturation test after the count, the expectation has left its list and its sequences before any user code runs.",
     design_ref="DESIGN.md section 4, C08", note="Not decided: what the user's expressions compute.")
 
 CHECKS["C01"] = dict(
@@ -110,7 +116,8 @@ CHECKS["C01"] = dict(
          "nothing; saturated expectations are never candidates; matching is the conjunction over all parameters and "
          "all WITH conditions (decided on matches() whether the WITH loop lives in a helper or in matches() itself); "
          "expired expectations are unlinked on every path; every TIMES / RT_TIMES form sets the limits it says "
-         "(every arity of the multiplicity constructors, default arguments included).",
+         "(every arity of the multiplicity constructors, default arguments included). "
+         "The whole step protocol of the accept path is a premise of this property and is decided by this check too: forbidden test first and unconditional, sequence check before the count, exactly one count, saturation test after the count, the expectation has left its list and its sequences before any user code runs.",
     design_ref="DESIGN.md section 4, C01",
     note="The 'iff' composes C02 (which candidate), C05 (sequence permission), C07 (forbidden); the lifting from "
          "'per call' to 'every history' is the list invariant written in DESIGN.md.")
@@ -132,7 +139,9 @@ CHECKS["C03"] = dict(
          "finite order abstraction; set_limits, increment_call (+1), default limits (1,1,0), rt_multiplicity and "
          "TIMES plumbing store what the property says; AT_LEAST/AT_MOST/ALLOW_CALL expand to the documented bounds; "
          "an accepted call is counted exactly once and on saturation retires, unlinks and is appended to the "
-         "saturated list; RT_TIMES throws std::logic_error exactly when high<low, before any effect.",
+         "saturated list; RT_TIMES throws std::logic_error exactly when high<low, before any effect. "
+         "The whole step protocol of the accept path is a premise of this property and is decided by this check too: forbidden test first and unconditional, sequence check before the count, exactly one count, saturation test after the count, the expectation has left its list and its sequences before any user code runs. "
+         "The predicate tables (is_satisfied, is_saturated, is_forbidden) hold for the base implementation and for every override.",
     design_ref="DESIGN.md section 4, C03", note="count<=max is an invariant from C03.d, used as don't-care rows.")
 CHECKS["C06"] = dict(
     technique="decision table of the is_completed step (TABLE, loop-idiom independent), interpretation of the sequence "
@@ -142,7 +151,8 @@ CHECKS["C06"] = dict(
          "~sequence_type lists every pending expectation once in list order whatever its state, unlinks each, and sends "
          "exactly one non-fatal report after the last one iff the list was not empty; both step consumers leave their "
          "sequences on saturation, test saturation only after the call / destruction has been counted, and retire "
-         "predecessors only together with counting; a released node unlinks on every path.",
+         "predecessors only together with counting; a released node unlinks on every path. "
+         "The whole step protocol of the accept path is a premise of this property and is decided by this check too: forbidden test first and unconditional, sequence check before the count, exactly one count, saturation test after the count, the expectation has left its list and its sequences before any user code runs.",
     design_ref="DESIGN.md section 4, C06", note="The query's lock is C12.")
 CHECKS["C07"] = dict(
     technique="preprocessor token equality of the FORBID macro family, protocol automaton, constant evaluation of "
@@ -150,7 +160,9 @@ CHECKS["C07"] = dict(
     text="Every FORBID_CALL spelling is REQUIRE_CALL + TIMES(0); the forbidden-call report is one fatal report with "
          "the expectation's location, name and the actual arguments, sent on the is_forbidden edge before any state "
          "change, so the expectation stays active and each later matching call takes the same path; at (0,0,0) it is "
-         "satisfied and saturated; actions and IN_SEQUENCE on it do not compile.",
+         "satisfied and saturated; actions and IN_SEQUENCE on it do not compile. "
+         "The whole step protocol of the accept path is a premise of this property and is decided by this check too: forbidden test first and unconditional, sequence check before the count, exactly one count, saturation test after the count, the expectation has left its list and its sequences before any user code runs. "
+         "The predicate tables (is_satisfied, is_saturated, is_forbidden) hold for the base implementation and for every override.",
     design_ref="DESIGN.md section 4, C07", note="Which calls it is the candidate for is C01/C02.")
 
 CHECKS["C10"] = dict(
@@ -163,7 +175,8 @@ CHECKS["C10"] = dict(
          "(non-null and found over [begin,end) with the stored flags; the empty string is a string); operands reach "
          "the predicate as (actual, stored...) for typed and duck-typed matchers alike; a plain-value operand reaches "
          "operator== unconverted whenever it is comparable as it is (type witness over integral / floating / "
-         "string / pointer pairs). This is the full predicate-level property; the user type's own operators and std::regex_search are opaque.",
+         "string / pointer pairs). This is the full predicate-level property; the user type's own operators and std::regex_search are opaque. "
+         "Composing a matcher from named (lvalue) operands never moves from them.",
     design_ref="DESIGN.md section 4, C10", note="Nesting follows from compositionality: every combinator's table is "
     "over the results of its operands' matches().")
 CHECKS["C13"] = dict(
@@ -174,7 +187,8 @@ CHECKS["C13"] = dict(
          "writes the slot nor hands it to anything (swap, exchange); a dying object notifies a live requirement exactly once and reports nothing itself, or reports "
          "exactly one non-fatal unexpected destruction; a released requirement reports one non-fatal 'still alive' "
          "and detaches iff its object is alive, and never touches the slot of a dead object; notify marks the "
-         "requirement died and counts the destruction on every path.",
+         "requirement died and counts the destruction on every path. "
+         "The whole step protocol of the accept path is a premise of this property and is decided by this check too: forbidden test first and unconditional, sequence check before the count, exactly one count, saturation test after the count, the expectation has left its list and its sequences before any user code runs.",
     design_ref="DESIGN.md section 4, C13", note="Several simultaneous requirements on one object: known finding (F12).")
 
 CHECKS["C09"] = dict(
@@ -186,7 +200,8 @@ CHECKS["C09"] = dict(
          "and their LR_ twins is remove_reference_t<Pk>& and _k beyond the arity is illegal_argument; because the "
          "types are pairwise distinct and opaque every permutation, off-by-one or copy fails to compile, so the "
          "witness holds for all argument values. The tuple is built in place from the forwarded parameters in order; "
-         "plain clause macros capture [=], LR_ ones [&]. Enumerated space is exhaustive.",
+         "plain clause macros capture [=], LR_ ones [&]. Enumerated space is exhaustive. "
+         "The C++11 macro API (corpus/core11.cpp parsed at -std=c++11) is subject to the same capture rule.",
     design_ref="DESIGN.md section 4, C09", note="Compiler front ends are the oracle.")
 CHECKS["C17"] = dict(
     technique="who-may-call on the trace sink, structural checks of the dispatch function's agent (construction "
@@ -225,7 +240,8 @@ CHECKS["C14"] = dict(
          "list (defaulted or hand-written); the process-wide mutex lives in storage that is never destroyed "
          "(objects with static storage lock it from their destructors). Three borrows violate "
          "their rule on the pinned tree and are recorded as known findings (sequence handle -> sequence object, tracer "
-         "-> previous tracer, handler coroutine's parameter reference).",
+         "-> previous tracer, handler coroutine's parameter reference). "
+         "A sequence's destructor leaves its borrowing list of handles empty whatever the handles' state; C14.f has one obligation per reference parameter of a library coroutine.",
     design_ref="DESIGN.md section 4, C14",
     note="Decides the listed structural necessary conditions, not memory safety of every history as a whole.")
 CHECKS["C20"] = dict(
@@ -238,7 +254,8 @@ CHECKS["C20"] = dict(
          "parameters must then not be bound to temporaries or locals of the forwarder); CO_YIELD appends to, and CO_RETURN/CO_THROW share, the expectation's single yield list for "
          "every clause order; detection traits hold for eager/lazy tasks, operator co_await tasks and generators; all "
          "legal clause permutations compile and misuse is rejected with the documented text - on coroutine functions, and "
-         "every coroutine clause on an ordinary function in every position relative to the ordinary clauses.",
+         "every coroutine clause on an ordinary function in every position relative to the ordinary clauses. "
+         "Reference parameters of the handler coroutine are decided one by one (the known finding concerns `params` only).",
     design_ref="DESIGN.md section 4, C20",
     note="Suspension/resumption and where exceptions surface are language semantics; parameter lifetime across "
          "suspension is a known finding.")
